@@ -9,6 +9,9 @@
 
 mod approx;
 mod core;
+mod dev_arena;
+mod dev_gen;
+mod dev_oracles;
 mod node_gen;
 mod node_models;
 mod node_oracles;
